@@ -643,7 +643,8 @@ func (p *IdP) issue(ch *chainRec, login bool) map[string]any {
 		p.issued[at] = &issuedTok{Token: at, Chain: ch.ID, Exp: now.Add(time.Duration(k.ExpiresIn) * time.Second), Kind: "access", Login: login, knownExp: sent}
 		p.w.addSecret("access-token", at)
 	}
-	if login && !k.OmitExpiresIn || !login && !k.RefreshOmitExpires {
+	// expires_in describes the access token of the same answer: an answer without access_token carries none
+	if _, hasAT := ans["access_token"]; hasAT && (login && !k.OmitExpiresIn || !login && !k.RefreshOmitExpires) {
 		ans["expires_in"] = k.ExpiresIn
 	}
 	// refresh token
